@@ -39,7 +39,9 @@ Rich == {A, S, LongString("ls"), Int("1"), Float("1.5"), RTime("2s"), Bool(TRUE)
          CallX("f", <<Bin("&&", A, B), IfX(A, S, S)>>),
          \* a construct nested in itself
          IfX(IfX(A, B, A), IfX(B, S, A), IfX(A, S, IfX(B, S, S))), CallX("f", <<CallX("g", <<CallX("h", <<A>>), S>>)>>),
-         Group(Group(Bin("==", A, S))), Not(Not(A)), Prefix("-", Prefix("-", Int("1")))}
+         Group(Group(Bin("==", A, S))), Not(Not(A)), Prefix("-", Prefix("-", Int("1"))),
+         \* long strings with a delimiter; a quote and a %-escape inside stay as written
+         LongStringD("x y", "XYZ"), LongStringD("a\"b %41", "J1")}
 R1 == {Bin(o, l, r) : o \in BinOps, l \in Rich, r \in Rich}
 
 ExprCtx(e, ctx) ==
